@@ -365,3 +365,102 @@ def envaxis(repo: Repo) -> List[Ob]:
     if n < 20:
         raise AnalysisError(f"ENVAXIS: {n} sites (floor 20)")
     return obs
+
+
+INVALIDATORS_SELF = {"reorder", "trace_out", "combine", "expand", "contract", "resize_fock", "measure", "measure_POVM", "apply_kraus", "apply_operation"}
+
+
+@rule("STALE-VIEW")
+def stale_view(repo: Repo) -> List[Ob]:
+    """a tensor view / shape list derived from the stored state and the member indices is not used after a call
+    that may rewrite them (reorder, trace_out – which reorders –, combine, expand, resize …)"""
+    obs: List[Ob] = []
+    n_fn = 0
+    for cname in ("Envelope", "ProductState"):
+        for mname, fi in repo.cls(cname).methods.items():
+            if mname in ("__repr__", "__init__"):
+                continue
+            fn = fi.node
+            if "self.state" not in src(fn):
+                continue
+            props = {"apply_operation": ("C01",), "apply_kraus": ("C06",), "measure_POVM": ("C09",), "resize_fock": ("C10",), "trace_out": ("C02",),
+                     "measure": ("C04", "C05"), "reorder": ("C02",)}.get(mname, ("C07",))
+            cfg = CFG(fn)
+            n_fn += 1
+
+            def derived(v: ast.AST, live) -> bool:
+                if isinstance(v, ast.Call) and isinstance(v.func, ast.Name) and v.func.id in ("int", "float", "bool", "len", "str"):
+                    return False          # scalars drawn from the state are not views of it
+                if isinstance(v, ast.Tuple) and v.elts and isinstance(v.elts[-1], ast.Call) and isinstance(v.elts[-1].func, ast.Name) and v.elts[-1].func.id in ("int", "float", "bool", "len"):
+                    return False
+                for x in ast.walk(v):
+                    if isinstance(x, ast.Attribute) and x.attr == "state" and src(x.value) == "self":
+                        return True
+                    if isinstance(x, ast.Attribute) and x.attr == "index" and src(x.value).startswith("self."):
+                        return True
+                    if isinstance(x, ast.Name) and x.id in live:
+                        return True
+                return False
+
+            found: Dict[int, Tuple[ast.AST, str, str]] = {}
+
+            def transfer(s: Node, lab, d, st):
+                live, stale, ordered = st        # frozensets of names; argument text of the reorder() already in force
+                a = s.ast
+                # uses of stale names (before this node's own invalidation / redefinition)
+                if s.kind in ("stmt", "return", "test") and a is not None:
+                    tgt_names = set()
+                    if s.kind == "stmt" and isinstance(a, ast.Assign):
+                        for t in a.targets:
+                            tgt_names |= {x.id for x in ast.walk(t) if isinstance(x, ast.Name) and isinstance(x.ctx, ast.Store)}
+                    for x in walk_node(s):
+                        if isinstance(x, ast.Name) and isinstance(x.ctx, ast.Load) and x.id in stale:
+                            found.setdefault(getattr(x, "lineno", 0), (x, x.id, dict(stale_by).get(x.id, "?")))
+                # invalidation
+                inv = None
+                for x in walk_node(s):
+                    mc = method_call(x)
+                    if mc and ((src(mc[0]) == "self" and mc[1] in INVALIDATORS_SELF) or (src(mc[0]) != "self" and mc[1] == "resize" and not isinstance(mc[0], ast.Name) or (mc[1] == "resize" and isinstance(mc[0], ast.Subscript)))):
+                        args = ",".join(src(a) for a in x.args)
+                        if src(mc[0]) == "self" and mc[1] in ("reorder", "trace_out") and ordered is not None and ordered == args:
+                            continue      # the requested order is already in force: the reorder inside is a no-op
+                        inv = f"{src(x.func)}()"
+                        ordered = args if (src(mc[0]) == "self" and mc[1] in ("reorder", "trace_out")) else None
+                if inv:
+                    for nm in live:
+                        stale_by.append((nm, inv))
+                    stale = stale | live
+                    live = frozenset()
+                # definitions
+                if s.kind == "stmt" and isinstance(a, ast.Assign) and len(a.targets) == 1:
+                    t = a.targets[0]
+                    if isinstance(t, ast.Name):
+                        if derived(a.value, live) and not inv:
+                            live = live | {t.id}
+                            stale = stale - {t.id}
+                        else:
+                            live = live - {t.id}
+                            stale = stale - {t.id}
+                    elif isinstance(t, ast.Subscript) and isinstance(t.value, ast.Name) and derived(ast.Tuple(elts=[t.slice, a.value], ctx=ast.Load()), live):
+                        if t.value.id not in stale:
+                            live = live | {t.value.id}
+                if s.kind == "iter" and isinstance(s.stmt, ast.For):
+                    for x in ast.walk(s.stmt.target):
+                        if isinstance(x, ast.Name):
+                            live, stale = live - {x.id}, stale - {x.id}
+                return [(live, stale, ordered)]
+
+            stale_by: List[Tuple[str, str]] = []
+            explore(cfg, (frozenset(), frozenset(), None), transfer, limit=400000)
+            if found:
+                for k, (ln, (x, nm, by)) in enumerate(sorted(found.items()), 1):
+                    if k > 3:
+                        break
+                    obs.append(bad("STALE-VIEW", fi, f"stale:{nm}#{k}", props, x,
+                                   f"`{nm}` was derived from self.state / the member indices before `{by}` – which may reorder or resize the stored state – and is used afterwards: "
+                                   "the view no longer matches the stored tensor and the indices"))
+            else:
+                obs.append(ok("STALE-VIEW", fi, "views-fresh", props, fn, "no tensor view or shape list is used after a call that may rewrite the stored state"))
+    if n_fn < 15:
+        raise AnalysisError(f"STALE-VIEW: {n_fn} functions (floor 15)")
+    return obs
